@@ -3,6 +3,13 @@ mod message;
 mod protocol;
 mod varint;
 
+/// Verification hook: name the private codec modules from outside the crate.
+#[cfg(heartwood_verif)]
+pub mod verif {
+    pub use super::frame::{Control, Frame, FrameData, StreamKind, Version, PROTOCOL_VERSION_STRING};
+    pub use super::varint::{payload, BoundsExceeded, VarInt};
+}
+
 pub use frame::StreamId;
 pub use message::{AddressType, MessageType};
 pub use protocol::{Control, Wire, WireReader, WireSession, WireWriter};
